@@ -19,6 +19,9 @@ RULES = {
     "R09.6": "predict / predict_batch / forward / _forward take &self and the crate has no interior mutability in "
              "layer types (flags cannot change during evaluation)",
 }
+RULES["R09.7"] = ("the dropout rate influences evaluation only under training: every read of a layer's `dropout` field outside "
+                  "derived/Display impls is reached only under `self.training == true` (path conditions of the read: enclosing branches and "
+                  "preceding diverging guards), so no inference-time rescaling or masking can depend on it")
 ASSUMPTIONS = [
     "rustc type checking / borrow checking (no write to a pub(crate) bool without a MIR field write or &mut borrow)",
     "panics are rejections; unwinding out of learn() and continuing to use the network is out of scope",
@@ -407,7 +410,82 @@ def r6(ctx):
         ctx.check("R09.6", "self-kind:" + adt + "::forward", fn["inputs"][0] == "&" + adt, "forward-takes-mutable-self", c.loc(fn))
 
 
+def _only_controls_training_effects(c, fn, x):
+    """The read `x` is (part of) the condition of a unit-valued `if`/`if let`/`match` and every effect in the branches it
+    controls happens under `self.training == true` (so outside training the branch is a no-op)."""
+    ctrl = None
+    for n in walk(fn["body"]):
+        if n.get("k") == "if" and any(y is x for y in walk(n["c"])):
+            ctrl = (n, [n["th"]] + ([n["el"]] if n["el"] is not None else []))
+        elif n.get("k") == "match" and any(y is x for y in walk(n["scrut"])):
+            ctrl = (n, [a["body"] for a in n["arms"]] + [a["guard"] for a in n["arms"] if a.get("guard")])
+    if ctrl is None:
+        return False
+    node, branches = ctrl
+    if (c.ty(node) or "()") != "()":
+        return False      # the construct yields a value that depends on the dropout configuration
+    base = pretty(strip(x["b"]))
+
+    def effectful(n):
+        k = n.get("k")
+        if k in ("assign", "assignop", "ret", "break", "continue"):
+            return True
+        if k in ("mcall", "call"):
+            for a in ([n["recv"]] if k == "mcall" else []) + list(n["args"]):
+                t = c.tya(a) or c.ty(a) or ""
+                if t.startswith("&mut") or (a.get("k") == "ref" and a.get("mut")):
+                    return True
+            if n.get("mac"):
+                return True
+        return False
+    for b in branches:
+        for e in walk(b):
+            if not effectful(e):
+                continue
+            pcs = e4.path_conditions(c, fn["body"], e) or []
+            ok = False
+            for (a, pol, _) in e4.atoms_of(pcs):
+                a = strip(a)
+                if pol and a.get("k") == "field" and a["f"] == FLAG and pretty(strip(a["b"])) == base:
+                    ok = True
+            if not ok:
+                return False
+    return True
+
+
+def r7(ctx):
+    c = ctx.crate
+    n = 0
+    for path, fn in sorted(c.fns.items()):
+        if fn.get("body") is None or path.startswith("<"):
+            continue
+        for x in walk(fn["body"]):
+            if x.get("k") != "field" or x["f"] != "dropout":
+                continue
+            base_ty = (c.tya(x["b"]) or c.ty(x["b"]) or "").lstrip("&").replace("mut ", "")
+            adt = c.adts.get(base_ty)
+            if adt is None or not any(f["name"] == FLAG for f in adt["variants"][0]["fields"]):
+                continue
+            n += 1
+            ctx.analysed_fns.add(path)
+            pcs = e4.path_conditions(c, fn["body"], x) or []
+            under = False
+            for (a, pol, _) in e4.atoms_of(pcs):
+                a = strip(a)
+                if pol and a.get("k") == "field" and a["f"] == FLAG and pretty(strip(a["b"])) == pretty(strip(x["b"])):
+                    under = True
+            if not under:
+                under = _only_controls_training_effects(c, fn, x)
+            ctx.check("R09.7", "%s:dropout-read" % path, under, "dropout-rate-read-outside-training", c.loc(fn, x),
+                      "`%s` is read only under `%s.training`" % (pretty(x), pretty(strip(x["b"]))),
+                      "`%s` is read on a path where `%s.training` is not known to be true (conditions on the way: %s): the dropout "
+                      "configuration can influence the result of an evaluation (prediction / validation) pass"
+                      % (pretty(x), pretty(strip(x["b"])), [(short(pretty(a), 40), pol) for (a, pol, _) in e4.atoms_of(pcs)]))
+    ctx.floor("R09.7", 3, "Dense, Convolution, Deconvolution forward")
+
+
 def run(ctx):
+    ctx.guard("R09.7", "dropout-reads", r7, ctx)
     ctx.guard("R09.1", "dropout-sites", r1, ctx)
     ctx.guard("R09.2", "writers", r2, ctx)
     ctx.guard("R09.3", "learn", r3, ctx)
